@@ -15,7 +15,7 @@ from . import _stdio
 def check(P: Project, R: Report) -> None:
     R.rule("R1", "each non-exceptional iteration of the writer loop performs exactly one stdin.send(payload) with payload = f\"{s}\\n\" encoded as UTF-8 (one trailing LF constant, nothing else)")
     R.rule("R2", "every value that reaches `s` is line-safe: the result of a compact serialiser (fast_json.dumps / model_dump_json without indent) or a string on a path that excluded raw CR/LF (or re-encoded it)")
-    R.rule("R3", "model serialisation paths pass exclude_none=True (absent optional members are omitted, not sent as null)")
+    R.rule("R3", "model serialisation paths pass exclude_none=True (absent optional members are omitted, not sent as null); under the no-Pydantic backend that flag reaches only declared members — the nested serialiser keeps the elements of free-form dict/list values one to one")
     R.rule("R4", "dropped alone / in order: with every call in the loop body fallible, no exception edge, break or return leaves the writer loop body; nothing is spawned")
     R.rule("R5", "the normal end of the outgoing stream is followed by stdin.aclose(), and the caller's write stream is the only lasting sending handle on that stream (no clone kept), so closing it is that end")
     wr, loop = _stdio.writer(P)
@@ -167,6 +167,19 @@ def check(P: Project, R: Report) -> None:
     R.ob("R5", "some exit closes stdin", any("aclose" in st.events for st in ends_fn), wr.where, "")
     closes = [c for c in walk_local(wr.node) if isinstance(c, ast.Call) and call_name(c).endswith("stdin.aclose")]
     R.ob("R5", "the close is after the loop, not inside it", bool(closes) and all(c not in list(walk_local(loop)) for c in closes), wr.where, "")
+
+    # typed messages under the no-Pydantic backend: the writer's model_dump_json(exclude_none=True) goes through the
+    # fallback's nested serialiser, which must keep explicit nulls inside free-form dict/list payload values
+    from ..roles import canonical_fallback
+    from .c09 import fallback_defs, nested_serialiser_obligations
+
+    PF = canonical_fallback(P, A.MOD_BASE)
+    _funcs, _classes, _split = fallback_defs(PF)
+    fbc = _classes.get("McpPydanticBase")
+    R.need(fbc is not None, "anchor: fallback McpPydanticBase not found")
+    fbm_ = {s_.name: s_ for s_ in fbc.body if isinstance(s_, (ast.FunctionDef, ast.AsyncFunctionDef))}
+    for label, ok, lineno, detail, sample in nested_serialiser_obligations(fbm_, R):
+        R.ob("R3", label, ok, f"{PF.module(A.MOD_BASE).rel}:{lineno}", detail.replace("so the two backends re-serialise the same message differently", "so the line the child receives lacks a member the message has (only absent optional members of the typed envelope may be omitted)"), sample=("R3 " + sample) if sample else None)
 
     # closing the write stream ends the outgoing stream only if the caller's handle is the only sending handle:
     # a clone of the send end that lives on (anything but `with … .clone() as h`) keeps the writer's `async for` from ever ending
